@@ -11,6 +11,9 @@ def _reexec_env(seed):
         "PYTHONDONTWRITEBYTECODE": "1",
         "PYTHONPATH": os.environ.get("VERIF_REPO_SRC", "/repo/src") + os.pathsep + os.path.dirname(os.path.dirname(os.path.abspath(__file__))),
         "CMVERIF_REEXEC": "1",
+        # an explicit UTF-8 locale with Python's UTF-8 mode OFF: the interpreter's default text encoding is then the
+        # locale's (UTF-8 here), as on an ordinary desktop, and a host-side locale.setlocale() can change it (C15)
+        "LC_ALL": "C.UTF-8", "LANG": "C.UTF-8", "PYTHONUTF8": "0", "PYTHONCOERCECLOCALE": "0",
     }
     return want
 
